@@ -7,3 +7,5 @@ def run(ctx):
     ctx.assumptions.append('tie T samples real client+server runs on the deterministic IO provider with an adversarial network; it validates the model/oracles, it is not the proof')
     e2e_props.run_family(ctx, 'mixed', [e2e.o_c12], 48, 1500)
     e2e_props.run_family(ctx, 'flowctl', [e2e.o_c12], 16, 500)
+    e2e_props.run_family(ctx, 'stopfin', [e2e.o_c12], 40, 1000)
+    e2e_props.run_family(ctx, 'closing', [e2e.o_c12], 24, 600)
